@@ -285,7 +285,7 @@ theorem poll_round (net : Nat) (respond : Nat → Nat → Resp) (fuel n : Nat) (
             (clientRecv st.next maxRequestLength 0 items) with
         | (st', res', .cont) =>
           if pending ≤ st'.next then (st', res')
-          else if res'.received = 0 then (st', { res' with status := .failed })
+          else if res'.received = res.received then (st', { res' with status := .failed })
           else poll net respond fuel (n + 1) st' res'
         | (st', res', _) => (st', res') := by
   rw [poll, catchUp_consistent hc hroom]
@@ -649,5 +649,40 @@ example : ¬ Genuine (putAll Ex.r0.store [Ex.d1']) (handedOver (scriptResponder 
 
 end Arrivals
 
+
+section EmptyResponse
+open F3.CertX
+
+/-- **A response that carries no usable certificate while advertising more ends the poll as `failed`** — whatever
+the peer handed over in earlier responses of the same poll (`res` is arbitrary), no further request is sent
+(the result does not depend on `fuel` or on later answers of `respond`). This is the rule the repair S14
+restored: before it the Go loop tested the cumulative count, so one certificate handed over once let a peer keep
+the poll spinning (replayed on the implementation by the `POLL-SPIN` oracle of `f3d_certx`). -/
+theorem poll_empty_response_fails (net : Nat) (respond : Nat → Nat → Resp) (fuel n : Nat) (st st1 : PState)
+    (res : PollRes) (pending : Nat) (items : List (Option Cert))
+    (hc : catchUp st = some st1) (hr : respond n st1.next = .ok pending items)
+    (hnone : clientRecv st1.next maxRequestLength 0 items = []) (hp : st1.next < pending) :
+    poll net respond (fuel + 1) n st res = (st1, { res with status := .failed }) := by
+  unfold poll
+  simp only [hc, hr, hnone, pollCerts]
+  have h1 : ¬ pending ≤ st1.next := by omega
+  have h2 : st1.next ≤ pending := by omega
+  simp only [h1, h2, if_true, if_false]
+
+/-- a garbage-only or empty response is such a response -/
+theorem clientRecv_nil (first limit : Nat) : clientRecv first limit 0 [] = [] := rfl
+theorem clientRecv_garbage (first limit : Nat) (rest : List (Option Cert)) :
+    clientRecv first limit 0 (none :: rest) = [] := rfl
+
+-- non-vacuity: one genuine certificate, then "I have more" with nothing, for ever: the poll ends after the second
+-- answer — same result for fuel 2 and fuel 40 (the third and later answers are never looked at), one certificate
+-- received and stored
+example :
+    poll 1 (fun k _ => if k = 0 then .ok 9 [some Ex.d1] else .ok 9 []) 2 0 Ex.r0 {} =
+      poll 1 (fun k _ => if k = 0 then .ok 9 [some Ex.d1] else .ok 9 []) 40 0 Ex.r0 {} ∧
+    (poll 1 (fun k _ => if k = 0 then .ok 9 [some Ex.d1] else .ok 9 []) 40 0 Ex.r0 {}).2 =
+      { status := .failed, received := 1, newCerts := 1, internal := false } := by decide
+
+end EmptyResponse
 
 end F3.Props.C16
